@@ -39,10 +39,16 @@ def run(tier, seed):
             hc.add_trace(kind, ops, obs, label=type(case).__name__, oracle=evprops.oracle_c12, describe=case.describe)
         if len(hc.v.violations) > 3:
             break
+    from harness import srcprops
+    for _, cfg, data, k, reqs, m in hcommon.share(srcprops.c12_cancel_nak_cases(tier, hc.rng)):
+        if len(hc.v.violations) > 3:
+            break
+        kind, ops, obs = srcprops.cancel_around_nak_case(cfg, data, k, reqs, m)
+        hc.add_trace(kind, ops, obs, label=f"cancel after NAK@{k}+{m}", oracle=evprops.oracle_c12)
     hc.correspondence(project=hcommon.proj_all_external, theorem="props/C12.v (correspondence source+dest, all external observables)")
     return hc.finish("two-handler transfers with link faults, cancels (right/wrong id), write rejections, several transactions per "
                      "handler + hostile single-handler streams (PDUs of every type with wrong ids/directions/modes in every step, "
-                     "undrained queues, resets, timer advances)" + (", random fault-handler tables on both sides" if FAULT_TABLES else "") +
+                     "undrained queues, resets, timer advances); sender: cancel requests at every point around a retransmission (k calls, NAK, m calls, cancel)" + (", random fault-handler tables on both sides" if FAULT_TABLES else "") +
                      ("; all 16 indication-switch settings x modes x message-to-user lists" if PROP == "C15" else "") +
                      "; distinct = (config class, visited (step, op, exception) set)")
 
